@@ -98,13 +98,15 @@ def emitRecord (line : Bytes) (fields : List Range) (opt : Opt) (compressedWithR
             (Run.ok eol)
     openBracket.seq body
 
-/-- `cut_str` (cut_str.rs:244) -/
-def cutStr (line : Bytes) (opt : Opt) (fields₀ : List Range) (buf₀ : Bytes) (eol : Bytes) :
-    Run × List Range × Bytes :=
+/-- `cut_str` (cut_str.rs:244) without its two scratch buffers: the run, and what the function
+    leaves in `fields` / `compressed_line_buf` (`none` = the buffer is not touched).  Both buffers
+    are cleared by whoever fills them (`buffer.clear()`, `output.clear()`), so nothing that was
+    in them can be read. -/
+def cutStrCore (line : Bytes) (opt : Opt) (eol : Bytes) : Run × Option (List Range) × Option Bytes :=
   if opt.regexBag.isSome && opt.compressDelimiter && opt.replaceDelimiter.isNone then
-    (Run.fail, fields₀, buf₀)
+    (Run.fail, none, none)
   else if opt.regexBag.isSome && opt.join && opt.replaceDelimiter.isNone then
-    (Run.fail, fields₀, buf₀)
+    (Run.fail, none, none)
   else
     let line : Bytes :=
       match opt.trim with
@@ -114,36 +116,43 @@ def cutStr (line : Bytes) (opt : Opt) (fields₀ : List Range) (buf₀ : Bytes) 
         | none => trimLiteral line kind opt.delimiter
       | none => line
     if line.isEmpty then
-      ((if !opt.onlyDelimited then Run.ok eol else Run.empty), fields₀, buf₀)
+      ((if !opt.onlyDelimited then Run.ok eol else Run.empty), none, none)
     else
       let shouldCompress :=
         opt.compressDelimiter && (opt.boundsType = .fields || opt.boundsType = .lines)
       -- (line, delimiter, build ranges with the regex?, compressed_line_buf, compressed with regex?)
-      let st : Option (Bytes × Bytes × Bool × Bytes × Bool) :=
+      let st : Option (Bytes × Bytes × Bool × Option Bytes × Bool) :=
         if shouldCompress then
           match opt.regexBag with
           | some bag =>
             match opt.replaceDelimiter with
-            | some nd => some (replaceMatches line nd 0 (bag.greedy line), nd, false, buf₀, true)
+            | some nd => some (replaceMatches line nd 0 (bag.greedy line), nd, false, none, true)
             | none => none   -- the `unwrap()`; excluded by the first test of the function
           | none =>
-            let c := compressDelimiter line opt.delimiter buf₀
-            some (c, opt.delimiter, false, c, false)
-        else some (line, opt.delimiter, opt.regexBag.isSome, buf₀, false)
+            let c := compressDelimiter line opt.delimiter []
+            some (c, opt.delimiter, false, some c, false)
+        else some (line, opt.delimiter, opt.regexBag.isSome, none, false)
       match st with
-      | none => (Run.panic, fields₀, buf₀)
+      | none => (Run.panic, none, none)
       | some (line, delimiter, useRegex, buf, compressedWithRegex) =>
         let fields : List Range :=
           match useRegex, opt.regexBag with
           | true, some bag =>
-            fillWithFieldsLocationsUsingRegex fields₀ line
+            fillWithFieldsLocationsUsingRegex [] line
               ((if opt.greedyDelimiter then bag.greedy else bag.normal) line)
           | _, _ =>
-            if opt.greedyDelimiter then fillWithFieldsLocationsGreedy fields₀ line delimiter
-            else fillWithFieldsLocations fields₀ line delimiter
+            if opt.greedyDelimiter then fillWithFieldsLocationsGreedy [] line delimiter
+            else fillWithFieldsLocations [] line delimiter
         let fields :=
           if opt.boundsType = .characters && fields.length > 2 then fields.dropLast.drop 1 else fields
-        (emitRecord line fields opt compressedWithRegex eol, fields, buf)
+        (emitRecord line fields opt compressedWithRegex eol, some fields, buf)
+
+/-- `cut_str` (cut_str.rs:244): `fields₀` / `buf₀` are the scratch buffers as the previous record
+    left them; the result carries them as this record leaves them. -/
+def cutStr (line : Bytes) (opt : Opt) (fields₀ : List Range) (buf₀ : Bytes) (eol : Bytes) :
+    Run × List Range × Bytes :=
+  let r := cutStrCore line opt eol
+  (r.1, r.2.1.getD fields₀, r.2.2.getD buf₀)
 
 /-- the record loop of `read_and_cut_str`: stop at the first record that fails -/
 def cutRecords (opt : Opt) : List Bytes → List Range → Bytes → Run
